@@ -477,7 +477,9 @@ def gen_imports(rng: random.Random, mid: str, mods: list[str], n: int, allow_mis
     imps = []
     for _ in range(n):
         if allow_missing and rng.random() < 0.06:
-            target = rng.choice(["nonexistent", "pkg.nonexistent", "m0.zzz"])
+            # (some are near-misses of stdlib modules that exist only in some Python versions,
+            # so that mypy's "Did you mean ...?" suggestions come into play)
+            target = rng.choice(["nonexistent", "pkg.nonexistent", "m0.zzz", "tomlib", "distutil", "asynchatt", "imghdrr"])
         else:
             target = rng.choice(others)
         style = rng.choices(["import", "from", "func", "tc", "star"], [5, 4, 2, 1.5, 0.7])[0]
